@@ -73,8 +73,9 @@ func (cc *ChangeCollector) AddChange(oldNode Node, newNode Node) {
 				return
 			}
 		}
-		prevChange.New = newNode
-		cc.Changes[nhash] = prevChange
+		// a new record instead of updating prevChange in place: the slices handed out by
+		// GetChanges share the records, and their holders read them without this lock
+		cc.Changes[nhash] = &NodeChange{Old: prevChange.Old, New: newNode}
 	} else {
 		change := &NodeChange{}
 		change.New = newNode
